@@ -516,7 +516,12 @@ class P(Prop):
             return {"harness": str(e)[:300]}
 
     def run_session(self, case):
-        coll = self.collection(case)
+        try:
+            coll = self.collection(case)        # tracks / an un-indexed network from the vertex lists: plumbing
+        except BaseException as e:
+            if isinstance(e, KeyboardInterrupt):
+                raise
+            raise HarnessError("cannot build the collection of the case: %r" % (e,))
         si = self.build_index(case, coll)
         info = self.read_info(si)
         geo = bool(case.get("geo"))
@@ -551,46 +556,65 @@ class P(Prop):
         out["scells"] = self.search_cells(si, case, case["queries"])
         return out
 
-    def run_query(self, si, q, geo=False):
+    def query_args(self, q, geo=False):
+        """the argument objects of a query (coordinates, tracks): building them is the harness's plumbing"""
         # request / neighborhood accept GeoCoords as well as ENUCoords (getX / getY are lon / lat)
         E = self.G if geo else self.E
+        k = q[0]
+        try:
+            if k in ("pt", "npt", "nd"):
+                return (E(fl(q[1]), fl(q[2]), 0.0),)
+            if k in ("seg", "nseg"):
+                return ([E(fl(q[1]), fl(q[2]), 0.0), E(fl(q[3]), fl(q[4]), 0.0)],)
+            if k == "trk":
+                return (self.mk(q[1]),)
+            if k == "ntrk":
+                return (self.mk(q[2]),)
+            if k == "getcell":
+                return (self.E(fl(q[1]), fl(q[2]), 0.0),)
+            if k in ("cell", "ncell", "units", "cross", "inter"):
+                return ()
+        except Exception as e:
+            raise HarnessError("cannot build the arguments of query %s: %r" % (q, e))
+        raise HarnessError("unknown query kind %r" % (k,))
+
+    def run_query(self, si, q, geo=False):
+        args = self.query_args(q, geo)
         try:
             k = q[0]
             if k == "cell":
                 return sorted(si.request(q[1], q[2]))
-            if k == "pt":
-                return sorted(si.request(E(fl(q[1]), fl(q[2]), 0.0)))
-            if k == "seg":
-                return sorted(si.request([E(fl(q[1]), fl(q[2]), 0.0), E(fl(q[3]), fl(q[4]), 0.0)]))
-            if k == "trk":
-                return sorted(si.request(self.mk(q[1])))
+            if k in ("pt", "seg", "trk"):
+                return sorted(si.request(args[0]))
             if k == "ncell":
                 return sorted(si.neighborhood(q[1], q[2], q[3]))
             if k == "npt":
-                r = si.neighborhood(E(fl(q[1]), fl(q[2]), 0.0), None, q[3])
+                r = si.neighborhood(args[0], None, q[3])
                 return None if r is None else sorted(r)
             if k == "nseg":
-                r = si.neighborhood([E(fl(q[1]), fl(q[2]), 0.0), E(fl(q[3]), fl(q[4]), 0.0)], None, q[5])
+                r = si.neighborhood(args[0], None, q[5])
                 return None if r is None else sorted(r)
             if k == "ntrk":
-                return sorted(si.neighborhood(self.mk(q[2]), None, q[1]))
+                return sorted(si.neighborhood(args[0], None, q[1]))
             if k == "units":
                 return int(si.groundDistanceToUnits(fl(q[1])))
             if k == "nd":
                 u = int(si.groundDistanceToUnits(fl(q[3])))
-                r = si.neighborhood(E(fl(q[1]), fl(q[2]), 0.0), None, u)
+                r = si.neighborhood(args[0], None, u)
                 return {"u": u, "res": None if r is None else sorted(r)}
             if k == "cross":
                 cells = si._SpatialIndex__cellsCrossSegment((fl(q[1]), fl(q[2])), (fl(q[3]), fl(q[4])))
                 return sorted([int(c[0]), int(c[1])] for c in cells)
             if k == "getcell":
-                c = si._SpatialIndex__getCell(self.E(fl(q[1]), fl(q[2]), 0.0))
+                c = si._SpatialIndex__getCell(args[0])
                 return None if c is None else [float(c[0]), float(c[1])]
             if k == "inter":
                 from tracklib.util import isSegmentIntersects
                 v = [fl(x) for x in q[1:]]
                 return int(bool(isSegmentIntersects(v[:4], v[4:])))
-            raise ValueError(k)
+            raise HarnessError("unknown query kind %r" % (k,))
+        except HarnessError:
+            raise
         except BaseException as e:
             if isinstance(e, KeyboardInterrupt):
                 raise
@@ -818,9 +842,7 @@ class P(Prop):
             i, j = key.split(":")
             grid[(int(i), int(j))] = set(vals)
         feats = [(k, f) for k, f in enumerate(case["feats"])]
-        for p in (p for _, f in feats for p in f):
-            if not inside(p):
-                return ("grid", None, "vertex %s is outside the extent %s" % (p, out["info"][:4]))
+        outside = [p for _, f in feats for p in f if not inside(p)]
         feats += [(n, t) for n, t in late_of(case) if all(inside(p) for p in t)]
         expected = {}
         for k, f in feats:
@@ -847,6 +869,9 @@ class P(Prop):
                 return ("omission", None, "feature %d has a segment through cell (%d,%d) = [%s,%s]x[%s,%s] but is not registered there: "
                         "point queries in that cell omit it" % (min(miss), i, j, float(xmin + i * dX), float(xmin + (i + 1) * dX),
                                                                 float(ymin + j * dY), float(ymin + (j + 1) * dY)))
+        if outside:
+            # (no omission inside the grid was found above: the index still does not cover the features it was built over)
+            return ("grid", None, "vertex %s is outside the extent %s" % (outside[0], out["info"][:4]))
         near_border = lambda c: (not exact) and min(c - math.floor(c), math.floor(c) + 1 - c) < EPS
         for n, (q, r) in enumerate(zip(case["queries"], out["q"])):
             k = q[0]
